@@ -58,6 +58,21 @@ func loadKnown(path string) []knownEntry {
 	return out
 }
 
+// gClosure: functions that are part of the running check only through the callee closure (their untagged clauses count)
+var gClosure = map[string]bool{}
+
+func sameProps(a, b []string) bool {
+	if len(a) != len(b) {
+		return false
+	}
+	for i := range a {
+		if a[i] != b[i] {
+			return false
+		}
+	}
+	return true
+}
+
 func hasProp(ps []string, p string) bool {
 	for _, x := range ps {
 		if x == p {
@@ -127,7 +142,15 @@ func runCheck(prop, repo, verif, tier, work string, tmo int, verbose bool, updat
 	nObl, nDis, nCover, nCoverOK, nBounded, nBoundedDis := 0, 0, 0, 0, 0, 0
 	solverTime := 0.0
 	unknownCalls := map[string]int{}
+	// The check of a property is closed under "uses the contract of": a callee contract that a function of this check
+	// relies on is verified in this check too (otherwise it would be an unverified assumption of this check, even though
+	// another property's check verifies it).
+	inCheck := map[string]bool{}
 	for _, k := range keys {
+		inCheck[k] = true
+	}
+	for ki := 0; ki < len(keys); ki++ {
+		k := keys[ki]
 		con := cs.ByKey[k]
 		if con.Trusted {
 			trusted["trusted contract (assumed, body not verified): "+strings.TrimPrefix(k, modPath+"/")] = true
@@ -149,6 +172,10 @@ func runCheck(prop, repo, verif, tier, work string, tmo int, verbose bool, updat
 		for _, u := range rep.Used {
 			if uc := cs.ByKey[u]; uc != nil && uc.Trusted {
 				trusted["trusted contract (assumed, body not verified): "+strings.TrimPrefix(u, modPath+"/")] = true
+			} else if uc != nil && !inCheck[u] {
+				inCheck[u] = true
+				gClosure[u] = true
+				keys = append(keys, u)
 			}
 		}
 		short := strings.TrimPrefix(strings.TrimPrefix(k, modPath+"/"), "x/")
@@ -160,7 +187,7 @@ func runCheck(prop, repo, verif, tier, work string, tmo int, verbose bool, updat
 			failures = append(failures, failure{name: short + "/engine.out_of_subset", rep: rep, reason: e})
 		}
 		for _, o := range rep.Obligs {
-			if !hasProp(o.Props, prop) {
+			if !hasProp(o.Props, prop) && !(gClosure[k] && sameProps(o.Props, con.Props)) {
 				continue
 			}
 			seen[o.Name] = true
